@@ -38,19 +38,19 @@ class P(DockProp):
             pipe = [g.line_filter(words=["error", "info", "GET", "n=", ":"])]
 
         q = g.query_text(sel, pipe, "spaced")
-        opts = {cid: [str(start // S), str(end // S)] for cid in exp}
+        opts = {cid: [str(start // S), str(-(-end // S))] for cid in exp}
         evals.append({"q": b64e(q), "qcoq": "DQLog (%s) 0" % g.query_coq(sel, pipe), "limit": 0, "start": start, "end": end, "step": 0, "release": list(range(nc)),
                       "exp_selected": exp, "exp_opts": opts, "must_err": False, "must_ok": True})
         # the same as an instant query: 30 s look-back on the lower bound
         if rng.random() < 0.5:
             evals.append({"q": b64e(q), "qcoq": "DQLog (%s) 0" % g.query_coq(sel, pipe), "limit": 0, "start": end, "end": end, "step": 0, "release": list(reversed(range(nc))),
-                          "exp_selected": exp, "exp_opts": {cid: [str((end - 30 * S) // S), str(end // S)] for cid in exp}, "must_err": False, "must_ok": True})
+                          "exp_selected": exp, "exp_opts": {cid: [str((end - 30 * S) // S), str(-(-end // S))] for cid in exp}, "must_err": False, "must_ok": True})
         # a range aggregation over the same selection: window [start - range, end]
         if rng.random() < 0.5:
             rng_ns = rng.choice([S, 2 * S, 1500_000_000])
             e = m.mrange("count_over_time", sel, [], rng_ns)
             evals.append({"q": b64e(m.text(e)), "qcoq": "DQMetric (%s)" % e["coq"], "limit": 0, "start": start, "end": end, "step": S, "release": [],
-                          "exp_selected": exp, "exp_opts": {cid: [str((start - rng_ns) // S), str(end // S)] for cid in exp}, "must_err": False, "must_ok": True})
+                          "exp_selected": exp, "exp_opts": {cid: [str((start - rng_ns) // S), str(-(-end // S))] for cid in exp}, "must_err": False, "must_ok": True})
         return {"kind": "sel%d" % len(sel), "ctrs": [c.json() for c in ctrs], "ctrs_coq": clist(c.coq() for c in ctrs), "ctrs_intended_coq": clist(c.coq(False) for c in ctrs),
                 "list_fail": False, "oracle": oracles_coq(), "evals": evals, "same": [], "faults": [],
                 "summary": ["%s names=%s labels=%s" % (c.id, c.names, c.labels) for c in ctrs], "note": "selector %s" % [(x["l"], x["op"], x["v"]) for x in sel]}
